@@ -142,6 +142,8 @@ def _truthiness_sites(fn_node):
                 yield n, t.id, f"`{'if' if not isinstance(n, ast.While) else 'while'} {txt(n.test)}` branches on the truthiness of `{t.id}`"
         if isinstance(n, ast.Call) and txt(n.func) == "filter" and len(n.args) == 2 and isinstance(n.args[0], ast.Constant) and n.args[0].value is None:
             yield n, ("<elements>", n.args[1]), f"`{txt(n)[:60]}` drops every falsy element"
+        if isinstance(n, ast.Call) and txt(n.func) in ("any", "all") and len(n.args) == 1 and isinstance(n.args[0], ast.Name):
+            yield n, ("<elements>", n.args[0]), f"`{txt(n)[:70]}` tests the truthiness of the elements themselves"
         if isinstance(n, ast.Call) and txt(n.func) in ("any", "all") and len(n.args) == 1 and isinstance(n.args[0], (ast.GeneratorExp, ast.ListComp)) \
                 and isinstance(n.args[0].elt, ast.Name) and len(n.args[0].generators) == 1 and isinstance(n.args[0].generators[0].target, ast.Name) \
                 and n.args[0].elt.id == n.args[0].generators[0].target.id:
@@ -254,11 +256,18 @@ def run(ctx):
                         elif ".neighbors(" in stext or "common_neighbors(" in stext or "common_neighbours(" in stext or stext.endswith(".nodes()") or stext.endswith(".nodes") \
                                 or (isinstance(src, ast.Name) and src.id in vertex_ids):
                             why = "the elements are vertices"
+                        elif isinstance(src, ast.Name) and any(
+                                isinstance(x, ast.Call) and isinstance(x.func, ast.Attribute) and x.func.attr in ("add_edge", "has_edge", "remove_edge")
+                                and any(isinstance(a_, ast.Starred) and isinstance(a_.value, ast.Name) and a_.value.id == src.id for a_ in x.args) for x in ast.walk(f.node)):
+                            why = f"`{src.id}` is an edge (it is unpacked into add_edge / has_edge / remove_edge), its elements are vertices"
                         elif isinstance(src, ast.Name):
                             # group produced by zip_longest in an enclosing loop
                             for x in ast.walk(f.node):
                                 if isinstance(x, (ast.For, ast.comprehension)) and isinstance(x.target, ast.Name) and x.target.id == src.id and "zip_longest" in txt(x.iter):
                                     why = "the elements are stubs (vertex numbers) padded by zip_longest: the padding is None, but vertex 0 is falsy too"
+                                if isinstance(x, (ast.For, ast.comprehension)) and isinstance(x.target, ast.Name) and x.target.id == src.id and isinstance(x.iter, ast.Call) \
+                                        and txt(x.iter.func).split(".")[-1] == "grouper":
+                                    why = "the elements are stubs (vertex numbers) grouped by grouper(..): a fill value may be None, but vertex 0 is falsy too"
                         if why:
                             found = True
                             o.violated(f, node, f"{how}; {why}: the element 0 is silently lost / never counts", sure=True)
